@@ -228,6 +228,43 @@ def check(case, ctx):
         ctx.finding('differential', 'values_differ',
                     'aliased document: %r -> %s\nexpanded document: %r -> %s\n  model: %s'
                     % (a_text, canon(oa[1]), e_text, canon(ob[1]), spec))
+        return
+    check_stream(case, ctx, m, spec, a_text, oa)
+
+
+def check_stream(case, ctx, m, spec, a_text, oa):
+    """The same aliased document as the second document of a multi-document
+    stream read with yaml.load_all and the load function's loader class (the
+    documented way to read streams): same outcome as on its own."""
+    if '\n' in a_text.strip() or a_text.lstrip().startswith(('%', '---')):
+        return
+    loader = getattr(m.load, 'loader', None)
+    if loader is None:
+        return
+    stream = '--- %s\n--- %s\n' % (a_text.strip(), a_text.strip())
+    m.reset()
+    docs = []
+    try:
+        it = yaml.load_all(stream, Loader=loader)
+        for _ in range(2):
+            docs.append(('ok', next(it)))
+    except (yatiml.RecognitionError, yaml.YAMLError) as e:
+        docs.append(('err', type(e).__name__))     # ends the stream
+    except StopIteration:
+        ctx.count('stream_ended_early')
+        return
+    except Exception as e:
+        docs.append(('exc', exc_signature(e)))
+    ctx.count('stream_compared')
+    for o in docs:
+        same = o[0] == oa[0] and (o[0] != 'ok' or strict_eq(o[1], oa[1]))
+        if not same:
+            ctx.finding('stream', 'load_all:single=%s stream=%s' % (oa[0], o[0]),
+                        'document %r loaded on its own -> %s %s\n  as a document of the stream %r '
+                        'through yaml.load_all(stream, Loader=load.loader) -> %s %s\n  model: %s'
+                        % (a_text, oa[0], canon(oa[1]) if oa[0] == 'ok' else oa[1], stream,
+                           o[0], canon(o[1]) if o[0] == 'ok' else o[1], spec))
+            return
 
 
 def phases(tier):
